@@ -9,8 +9,39 @@ class HasEqv (V : Type) where
   eqv : V → V → Bool
 
 instance : HasEqv F64 := ⟨F64.eq⟩
-/-- Rust `==` for payloads with structural equality -/
+/-- Rust `==` for payloads with structural equality (the base types: integers, `()`, `char`) -/
 instance (priority := low) eqvOfDecEq {V : Type} [DecidableEq V] : HasEqv V := ⟨fun a b => decide (a = b)⟩
+
+/-- `[T]: PartialEq`: same length and element-wise `==` (IEEE on floats: a slice containing a NaN is not `==` itself) -/
+def listEqv {α : Type} (e : α → α → Bool) : List α → List α → Bool
+  | [], [] => true
+  | a :: as, b :: bs => e a b && listEqv e as bs
+  | _, _ => false
+/-! the derived `PartialEq` of `Vec`/slices, `Option`, `Result` and tuples is structural -/
+instance {α : Type} [HasEqv α] : HasEqv (List α) := ⟨listEqv HasEqv.eqv⟩
+instance {α : Type} [HasEqv α] : HasEqv (Option α) :=
+  ⟨fun a b => match a, b with | none, none => true | some x, some y => HasEqv.eqv x y | _, _ => false⟩
+instance {ε α : Type} [HasEqv ε] [HasEqv α] : HasEqv (Except ε α) :=
+  ⟨fun a b => match a, b with | .ok x, .ok y => HasEqv.eqv x y | .error x, .error y => HasEqv.eqv x y | _, _ => false⟩
+instance {α β : Type} [HasEqv α] [HasEqv β] : HasEqv (α × β) := ⟨fun a b => HasEqv.eqv a.1 b.1 && HasEqv.eqv a.2 b.2⟩
+
+/-- `==` that is equality (everything without floats) -/
+class LawfulEqv (V : Type) [HasEqv V] : Prop where
+  eqv_iff : ∀ a b : V, HasEqv.eqv a b = true ↔ a = b
+instance (priority := low) {V : Type} [DecidableEq V] : @LawfulEqv V eqvOfDecEq := ⟨fun _ _ => decide_eq_true_iff⟩
+theorem listEqv_iff {α : Type} (e : α → α → Bool) (h : ∀ a b, e a b = true ↔ a = b) :
+    ∀ l m : List α, listEqv e l m = true ↔ l = m
+  | [], [] => by simp [listEqv]
+  | [], _ :: _ => by simp [listEqv]
+  | _ :: _, [] => by simp [listEqv]
+  | a :: as, b :: bs => by simp [listEqv, h, listEqv_iff e h as bs]
+instance {α : Type} [HasEqv α] [LawfulEqv α] : LawfulEqv (List α) := ⟨listEqv_iff _ LawfulEqv.eqv_iff⟩
+instance {α : Type} [HasEqv α] [LawfulEqv α] : LawfulEqv (Option α) :=
+  ⟨fun a b => by cases a <;> cases b <;> simp [HasEqv.eqv, LawfulEqv.eqv_iff]⟩
+instance {ε α : Type} [HasEqv ε] [HasEqv α] [LawfulEqv ε] [LawfulEqv α] : LawfulEqv (Except ε α) :=
+  ⟨fun a b => by cases a <;> cases b <;> simp [HasEqv.eqv, LawfulEqv.eqv_iff]⟩
+instance {α β : Type} [HasEqv α] [HasEqv β] [LawfulEqv α] [LawfulEqv β] : LawfulEqv (α × β) :=
+  ⟨fun a b => by cases a; cases b; simp [HasEqv.eqv, LawfulEqv.eqv_iff]⟩
 
 /-- element-wise lifting of a relation to lists (core has no `List.Forall₂`) -/
 def listRel {α : Type} (s : α → α → Prop) : List α → List α → Prop
